@@ -14,15 +14,18 @@ CONSTANTS B, Menu, Feed, Dests, ND, Ops
 \* Ops: which caller actions besides parse are enabled, a subset of {"cs", "c", "co", "ss"}
 \* ND: decimal digits of the connection limit (length of GetValuesResult values)
 
-VARIABLES wi, cw, sp, last, hist, delivered, epochRi, appended, reported, errSeen
+VARIABLES wi, cw, sp, last, hist, delivered, epochRi, appended, reported, errSeen, nop
 \* last      : result of the last call (hidden)   hist: the calls so far (hidden)
 \* delivered : merged intervals handed to the caller for the active stream since it became active
 \* epochRi   : record index at which the active stream became active
 \* appended  : all replies ever put into the output buffer;  reported: sum of Status.output
 \* errSeen   : the error a parse call has returned, if any (errors must repeat on every later call)
 \* cw        : the case record WSeq[wi] carried in the state (TLC re-evaluates the menu constant at every reference)
-vars == <<wi, cw, sp, last, hist, delivered, epochRi, appended, reported, errSeen>>
-View == <<wi, sp, delivered, epochRi>>
+vars == <<wi, cw, sp, last, hist, delivered, epochRi, appended, reported, errSeen, nop>>
+\* nop: the last call left the parser state unchanged (a rejected or repeated set_stream, a parse(0) with nothing to do).
+\* Without it in the VIEW such a state coincides with its predecessor, TLC never continues from it, and no emitted
+\* history would contain "no-op call, then more calls" - exactly where a call that should change nothing but does shows.
+View == <<wi, sp, delivered, epochRi, nop>>
 
 Own == 1
 Other == 2
@@ -68,7 +71,9 @@ WireSet ==
   \cup (IF "replies" \in Menu THEN { W(role, s, 0, 0, "replies") : role \in {1, 2}, s \in { << "GV" >>, << "GX" >>, << "GH", "GV" >>, << "UK", "FB" >>, << "GX", "GV" >>,
                                           << "S3", "GX", "S0" >>, << "FB", "UK", "GV" >>, << "OB", "GV", "AO" >>, << "UK", "S1", "GV", "S0" >> }
                                         \* (below) every ordered pair of adjacent reply-producing records (state left behind by one must not leak into the next)
-                                       } \cup { W(1, << a, b >>, 0, 0, "replies") : a \in {"GV", "GX", "UK", "FB", "OB"}, b \in {"GV", "GX", "UK", "FB", "OB"} } ELSE {})
+                                       } ELSE {})
+  \cup (IF "replies2" \in Menu THEN ({ W(1, << a, b >>, 0, 0, "replies2") : a \in {"GV", "GX"}, b \in {"GV", "GX", "UK", "FB", "OB"} }
+                                         \cup { W(1, << a, "GV" >>, 0, 0, "replies2") : a \in {"UK", "FB", "OB"} }) ELSE {})
   \cup (IF "auth" \in Menu THEN { W(2, s, 0, 0, "auth") : s \in Typical } ELSE {})
   \cup (IF "trunc" \in Menu THEN { W(3, << "S3", "GV", "S0", "D2", "D0" >>, 0, c, "trunc") : c \in 0..40 } ELSE {})
 WSeq == TLCEval(SetToSeq(WireSet))
@@ -83,7 +88,7 @@ Init ==
   /\ wi \in 1..NW
   /\ cw = WSeq[wi]
   /\ sp = SPInit(ReqOf(cw), PreLen, Min2(cw.la, cw.w.len - PreLen), Ri0, 1)
-  /\ last = [k |-> "init"] /\ hist = <<>> /\ delivered = <<>> /\ epochRi = Ri0 /\ appended = <<>> /\ reported = 0 /\ errSeen = ""
+  /\ last = [k |-> "init"] /\ hist = <<>> /\ delivered = <<>> /\ epochRi = Ri0 /\ appended = <<>> /\ reported = 0 /\ errSeen = "" /\ nop = FALSE
   /\ PrintT(ToJson([t |-> "case", c |-> wi, B |-> B, tag |-> cw.tag, la |-> sp.fs, wire |-> cw.w]))
 
 FeedSizes(free, rem) ==
@@ -105,6 +110,7 @@ DoParse(n, dest) ==
   /\ reported' = reported + r.res.output      \* a failing call drops its Status; the model still counts
   /\ errSeen' = IF r.err # "" THEN r.err ELSE errSeen
   /\ hist' = Append(hist, << "P", n, dest >>)
+  /\ nop' = (sp' = sp)
   /\ UNCHANGED <<wi, cw, epochRi>>
 
 ConsumeStream(k) ==
@@ -114,6 +120,7 @@ ConsumeStream(k) ==
      /\ delivered' = IvConcat(delivered, IvTake(sp.piv, m))
      /\ last' = [k |-> "consume", got |-> IvTake(sp.piv, m)]
   /\ hist' = Append(hist, << "CS", k >>)
+  /\ nop' = (sp' = sp)
   /\ UNCHANGED <<wi, cw, epochRi, appended, reported, errSeen>>
 
 Compress ==
@@ -121,6 +128,7 @@ Compress ==
   /\ sp' = SP_Compress(sp)
   /\ last' = [k |-> "compress"]
   /\ hist' = Append(hist, << "C" >>)
+  /\ nop' = (sp' = sp)
   /\ UNCHANGED <<wi, cw, delivered, epochRi, appended, reported, errSeen>>
 
 ConsumeOutput(k) ==
@@ -128,6 +136,7 @@ ConsumeOutput(k) ==
   /\ sp' = SP_ConsumeOutput(sp, ND, k)
   /\ last' = [k |-> "consumeout"]
   /\ hist' = Append(hist, << "CO", k >>)
+  /\ nop' = (sp' = sp)
   /\ UNCHANGED <<wi, cw, delivered, epochRi, appended, reported, errSeen>>
 
 SetStream(s) ==
@@ -137,6 +146,7 @@ SetStream(s) ==
   /\ delivered' = IF r.ok /\ s # sp.stream THEN <<>> ELSE delivered
   /\ epochRi' = IF r.ok /\ s # sp.stream THEN sp.ri ELSE epochRi
   /\ hist' = Append(hist, << "SS", s >>)
+  /\ nop' = (sp' = sp)
   /\ UNCHANGED <<wi, cw, appended, reported, errSeen>>
 
 LastIs(k) == Len(hist) > 0 /\ hist[Len(hist)][1] = k
